@@ -68,8 +68,11 @@ def cases(tier, seed):
         for T in (1, 2):
             for n in (1, 3):
                 out.append({"id": f"odd-{odd}-T{T}-n{n}", "kind": "odd", "odd": odd, "T": T, "n": n, "seed": seed})
-    for fv, dev in e1.family_members(1)[0]:
-        out.append({"id": "accept-" + e1.fv_id(fv), "kind": "accept", "fv": fv, "seed": seed})
+    seen_acc = set()
+    for fv, dev in e1.family_members(1)[0] + e1.family_members(2, {k: family.FEATURES[k] for k in ["cc", "e", "wgrid"]})[0]:
+        if e1.fv_id(fv) not in seen_acc:
+            seen_acc.add(e1.fv_id(fv))
+            out.append({"id": "accept-" + e1.fv_id(fv), "kind": "accept", "fv": fv, "seed": seed})
     out.append({"id": "import-without-shim", "kind": "import"})
     return out
 
